@@ -94,3 +94,29 @@ def universe(n, pred, feasible=None):
     import itertools
     return {bits for bits in itertools.product([False, True], repeat=n)
             if (feasible is None or feasible(bits)) and pred(bits)}
+
+
+# ---- loops that must visit every element ------------------------------------
+def early_exits(body, lm):
+    """Exit paths of an iterator-driven loop that leave it although next() yielded an item (break / return in the
+    body): [path].  A loop that has to process every element of its source has none."""
+    from ..paths import loop_paths
+    out = []
+    if lm.kind != "iter" or lm.none_block is None:
+        return [[lm.header]]
+    for kind, path in loop_paths(body, lm):
+        if kind != "exit":
+            continue
+        if lm.none_block in path:
+            continue
+        out.append(path)
+    return out
+
+
+def check_visits_all(rule, body, lm, what):
+    """Record a rule instance: the loop leaves only when its iterator is exhausted."""
+    bad = early_exits(body, lm)
+    site = site_of_block(body, bad[0][-2]) if bad and len(bad[0]) >= 2 else site_of_block(body, lm.header)
+    rule.check(not bad, "visits-all", "%s is left only when its iterator is exhausted" % what, "no break / return in the loop body",
+               "%s can be left before its iterator is exhausted (%d early exit path(s)): the remaining elements are never processed"
+               % (what, len(bad)), site=site)
